@@ -226,6 +226,50 @@ def tree_wire(s, name=""):
     return out
 
 
+def savedoc_wire(s):
+    """the document save() writes, flattened: system name and phases, and for every component entry its type, parameters
+    (tagged like the projection's), limits, the parent(s) it is listed under (a mux: its "parents" list, in order) and
+    its entries in the rail / group / phase_conf tables of the document"""
+    import json
+    import os
+    import tempfile
+    from decwire import cell, pwire
+    from project import conf_wire
+    fd, path = tempfile.mkstemp(suffix=".json", prefix="sl_sd_")
+    os.close(fd)
+    try:
+        s.save(path)
+        with open(path) as f:
+            doc = json.load(f)
+    finally:
+        try:
+            os.unlink(path)
+        except OSError:
+            pass
+    sysd = doc["system"]
+    comps = []
+
+    def entry(e, par):
+        p = dict(e["params"])
+        name = p.pop("name")
+        comps.append({"name": name, "type": e["type"], "params": {k: pwire(v) for k, v in p.items()},
+                      "limits": [[k, [cell(x) for x in v]] for k, v in e.get("limits", {}).items()], "par": list(par)})
+    for key, sec in doc.items():
+        if key == "system":
+            continue
+        entry(sec, sec.get("parents", []))
+        for parent, kids in sec.get("childs", {}).items():
+            for e in kids:
+                entry(e, [parent])
+    for c in comps:
+        c["rail"] = sysd["rails"].get(c["name"], "<missing>")
+        c["group"] = sysd["groups"].get(c["name"], "<missing>")
+        c["pconf"] = conf_wire(sysd["phase_conf"].get(c["name"], "<missing>"))
+    keys = sorted(set(sysd["rails"]) | set(sysd["groups"]) | set(sysd["phase_conf"]))
+    return {"isnone": False, "sysname": sysd["name"], "sysph": [{"name": str(k), "dur": cell(v)} for k, v in sysd["phases"].items()],
+            "comps": comps, "tablekeys": keys}
+
+
 def report_case(s, cid, what):
     """one validation case for TraceReports.tla: the projected state and the four reports"""
     from project import project
@@ -244,4 +288,5 @@ def report_case(s, cid, what):
     get("limits", lambda: params_wire(s.limits(), with_params=False), [])
     get("phases", lambda: phases_wire(s.phases()), {"isnone": True, "hasdomain": False, "rows": []})
     get("tree", lambda: tree_wire(s), [])
+    get("savedoc", lambda: savedoc_wire(s), {"isnone": True, "sysname": "", "sysph": [], "comps": [], "tablekeys": []})
     return case
